@@ -111,6 +111,10 @@ pub fn drain_adv(sim: &mut Sim, env: &mut Env, rng: &mut StdRng, interval: u64, 
                 any = true;
             }
             if rng.gen_bool(0.3) {
+                // the block of a matched entry before anybody has proved it
+                env.unproved_block(sim, i);
+            }
+            if rng.gen_bool(0.3) {
                 if env.mutate_blocks_proof(sim, i, rng) {
                     any = true;
                 }
@@ -517,12 +521,13 @@ fn rand_scenario(rng: &mut StdRng, sc: usize, out: Box<dyn std::io::Write>, kv: 
     env.set_scripts(&mut sim, "all", &l0);
     let steps = arg_u64(kv, "steps", 150);
     let w_scripts = if profile == "scripts" { 8 } else { 1 };
-    let w_fetch = if profile == "fetch" || profile == "adv" { 10 } else if profile == "sync" { 3 } else { 1 };
+    let w_fetch = if profile == "fetch" || profile == "adv" { 10 } else if profile == "fork" { 6 } else if profile == "sync" { 3 } else { 1 };
     let switch_at = if profile == "fork" { rng.gen_range(steps / 4..steps * 3 / 4) } else { u64::MAX };
     let mut blocks_q: Vec<(usize, ckb_types::packed::SyncMessage)> = Vec::new();
     let ntx = sim.chain.txs.len();
     for step in 0..steps {
-        if step == switch_at {
+        // (an honest node only ever reorganises to a heavier chain)
+        if step == switch_at && sim.chain.blocks[leaves[1]].ttd > sim.chain.blocks[leaves[0]].ttd {
             // every peer moves to the fork branch (its tip: somewhere above the fork point)
             let fleaf = leaves[1];
             for ep in env.peers.iter_mut() {
@@ -868,19 +873,21 @@ fn crash_history(seed: u64, sc: usize, k: Option<usize>, out: Box<dyn std::io::W
     sim.reset(json!({"mode": "crash", "k": k.unwrap_or(0), "initCrashed": init_crashed}));
     let list1 = vec![(0usize, false, 0u64), (3usize, true, 1u64)];
     let list2 = vec![(1usize, false, 2u64)];
-    // the scripted history; after a crash the user re-issues the interrupted set_scripts
+    let retry = arg_u64(kv, "retry", 1) == 1;
+    // the scripted history
     let mut phase = 0;
     let total_rounds = a_len / 2 + 12;
     let mut round = 0;
     while round < total_rounds && !sim.dead {
         if phase == 0 {
             env.set_scripts(&mut sim, "all", &list1);
-            if sim.crashed { sim.crashed = false; env.after_crash(); continue; }
+            // after a crash the user either repeats the interrupted call or, seeing the scripts registered, does not
+            if sim.crashed { sim.crashed = false; env.after_crash(); if retry { continue; } }
             phase = 1;
         }
         if phase == 1 && round == 3 {
             env.set_scripts(&mut sim, "partial", &list2);
-            if sim.crashed { sim.crashed = false; env.after_crash(); continue; }
+            if sim.crashed { sim.crashed = false; env.after_crash(); if retry { continue; } }
             phase = 2;
         }
         if phase == 2 && round == a_len / 2 + 4 {
